@@ -380,5 +380,28 @@ def sumMixedLoop (f c : F64) : List (Sum Int F64) → Option F64
 /-- `sum(items, start)` for a float `start` where `items` are floats and ints -/
 def pySumMixed (start : F64) (xs : List (Sum Int F64)) : Option F64 := sumMixedLoop start zero xs
 
+/-! ## Cents (used by `Proofs/F64Cents.lean`: money lines are `round(x, 2)` values) -/
+
+/-- the double nearest (ties to even) to `c/100`: literally `float(f"{c}e-2")` (and also `c / 100`,
+Python's correctly rounded int/int true division) -/
+def centD (c : Int) : F64 := ofDecimal (decide (c < 0)) c.natAbs (-2)
+
+/-- **`x` is the double for `c` cents**: canonical, finite and numerically equal to the correctly
+rounded value of `c/100` (so both `0.0` and `-0.0` are `Cent _ 0`; for `c ≠ 0` it means
+`x = centD c`). -/
+def Cent (x : F64) (c : Int) : Prop := WF x ∧ x.isFinite = true ∧ eq x (centD c) = true
+
+instance (x : F64) (c : Int) : Decidable (Cent x c) := by unfold Cent; infer_instance
+
+/-- `round(100·v)` (half-even) for an exact value `v` in scaled units -/
+def cents100I (v : Int) : Int := signed (decide (v < 0)) (rneDiv (v.natAbs * 100) one)
+
+/-- the integer `round(100·x)` computed exactly (no float multiplication); 0 for inf/nan -/
+def cents100 (x : F64) : Int := cents100I (sval x)
+
+/-- the number of cents of a cent-valued double, `none` if `x` is not cent-valued -/
+def centsOf (x : F64) : Option Int := if Cent x (cents100 x) then some (cents100 x) else none
+
+
 end F64
 end HabuVerif
